@@ -112,6 +112,8 @@ SPECS = [
     {'conv': 'cf2d', 'ny': 3, 'nx': 4}, {'conv': 'cf2d', 'ny': 4, 'nx': 4, 'holes': [[1, 1]]},
     # a one-cell-wide river between missing cells (cells bound by NaN on both sides are blanked while bounds are synthesised)
     {'conv': 'cf2d', 'ny': 4, 'nx': 5, 'holes': [[1, 0], [1, 2], [2, 2], [3, 1], [3, 3]]}, {'conv': 'cf2d', 'ny': 4, 'nx': 5, 'holes': [[0, 0], [2, 3], [2, 4]]},
+    # missing centres next to a border cell AND at the opposite end of its row / column: the border cell is not "enclosed" (nothing wraps around)
+    {'conv': 'cf2d', 'ny': 5, 'nx': 6, 'holes': [[2, 1], [2, 5]]}, {'conv': 'cf2d', 'ny': 5, 'nx': 6, 'holes': [[1, 3], [4, 3]]},
     {'conv': 'cf2d', 'ny': 3, 'nx': 4, 'bounds': 'vars', 'holes': [[0, 1]]}, {'conv': 'cf2d', 'ny': 3, 'nx': 4, 'bounds': 'coords'},
     {'conv': 'cf2d', 'ny': 3, 'nx': 3, 'bounds': 'vars', 'as_coords': False}, {'conv': 'cf2d', 'ny': 4, 'nx': 3, 'radial': True},
     {'conv': 'shoc_simple', 'ny': 3, 'nx': 4, 'bounds': 'vars'}, {'conv': 'shoc_simple', 'ny': 3, 'nx': 4, 'bounds': 'vars', 'first_plain': True},
@@ -119,6 +121,8 @@ SPECS = [
     {'conv': 'shoc_standard', 'ny': 3, 'nx': 4}, {'conv': 'shoc_standard', 'ny': 3, 'nx': 4, 'node_holes': [[0, 0], [2, 2]]},
     # a masked region of the node grid that leaves a lone finite node no complete cell uses (it must not widen the reported extent)
     {'conv': 'shoc_standard', 'ny': 3, 'nx': 4, 'node_holes': [[0, 4], [1, 4], [2, 4], [0, 3], [1, 3]]},
+    # cells whose centre coordinates are missing while their four nodes are defined: a cell is its nodes, it keeps its polygon
+    {'conv': 'shoc_standard', 'ny': 3, 'nx': 4, 'centre_holes': [[0, 0], [1, 2]]},
     {'conv': 'shoc_standard', 'ny': 2, 'nx': 3, 'as_coords': False}, {'conv': 'shoc_standard', 'ny': 1, 'nx': 3, 'radial': True},
     {'conv': 'ugrid', 'ny': 2, 'nx': 3}, {'conv': 'ugrid', 'ny': 3, 'nx': 3, 'split': [[0, 0], [1, 2]], 'merge': [[2, 0]]},
     {'conv': 'ugrid', 'ny': 2, 'nx': 3, 'split': [[0, 1]], 'start_index': 1, 'fill': 'nan'},
